@@ -11,7 +11,7 @@ func init() {
 		DesignRef:   "DESIGN.md section 3, C08",
 		Runs: []run{
 			{Test: "TestC08_Seq", Quick: 1500, Thorough: 20000},
-			{Test: "TestC08_Race", Quick: 500, Thorough: 8000, Race: true},
+			{Test: "TestC08_Race", Quick: 800, Thorough: 8000, Race: true},
 		},
 	})
 }
